@@ -78,7 +78,8 @@ def generate(rng, tier):
             if fmt == "ifg" and rng.random() < 0.3:
                 # the Interferogram has a life before it is saved: steps that only touch the calibration
                 op["prep"] = [rng.choice([["strip_latcal"], ["latcal", round(10 ** rng.uniform(-2, 1), 4)],
-                                          ["strip_latcal"], ["recenter"], ["read_r"]])
+                                          ["strip_latcal"], ["recenter"], ["read_r"], ["crop"], ["pad"], ["mask"],
+                                          ["remove_piston"]])
                               for _ in range(rng.randint(1, 3))]
             prev = [j for j, o in enumerate(ops) if o["op"] == "write" and "reuse" not in o]
             if prev and rng.random() < 0.3:
@@ -248,18 +249,7 @@ def _write(w, fmt, path, z, dx, wvl, cv=None, holder=None, prep=None, inten=None
         f = w.disk.open(path, "wb")
         pio.write_zygo_dat(f, z, dx, wavelength=wvl)
     elif fmt == "ifg":
-        if holder is not None:
-            if holder.get("ifg") is None:
-                holder["ifg"] = Interferogram(z, dx=dx, wavelength=wvl, intensity=_intensity(w.np, z, inten))
-                for step in (prep or []):
-                    if step[0] == "strip_latcal":
-                        holder["ifg"].strip_latcal()
-                    elif step[0] == "latcal":
-                        holder["ifg"].latcal(step[1])
-                    elif step[0] == "recenter":
-                        holder["ifg"].recenter()
-                    elif step[0] == "read_r":
-                        holder["ifg"].r
+        if holder is not None and holder.get("ifg") is not None:
             holder["ifg"].save_zygo_dat(path)
         else:
             i0 = Interferogram(z, dx=dx, wavelength=wvl, intensity=_intensity(w.np, z, inten))
@@ -666,12 +656,42 @@ def execute(plan):
                 z0 = build_map(np, op["map"], op["wvl"], fmt)
                 holder = {"z": z0, "pristine": z0.copy(), "ifg": None}
                 objs[i] = holder
+            if fmt == "ifg" and holder["ifg"] is None:
+                # the caller's long-lived Interferogram: built once, processed a little, then saved (perhaps
+                # several times).  What must come back is what the object holds when it is saved.
+                from prysm.interferogram import Interferogram
+                obj = Interferogram(holder["z"], dx=op["dx"], wavelength=op["wvl"],
+                                    intensity=_intensity(np, holder["z"], op.get("intensity")))
+                try:
+                    for step in (op.get("prep") or []):
+                        if step[0] == "strip_latcal":
+                            obj.strip_latcal()
+                        elif step[0] == "latcal":
+                            obj.latcal(step[1])
+                        elif step[0] == "recenter":
+                            obj.recenter()
+                        elif step[0] == "read_r":
+                            obj.r
+                        elif step[0] == "crop":
+                            obj.crop()
+                        elif step[0] == "pad":
+                            obj.pad(samples=1)
+                        elif step[0] == "mask":
+                            gm = np.random.Generator(np.random.PCG64(op["map"]["seed"] + 7))
+                            obj.mask(gm.random(obj.data.shape) < 0.8)
+                        elif step[0] == "remove_piston" and bool(np.any(np.isfinite(obj.data))) and op["map"]["vals"] != "huge":
+                            # (not for maps near the format's range: removing the mean may push them beyond it)
+                            obj.remove_piston()
+                except Exception:
+                    pass
+                holder["ifg"] = obj
+                if obj.data.ndim == 2 and obj.data.size > 0:
+                    holder["z"] = obj.data
+                    holder["pristine"] = np.array(obj.data, copy=True)
+                holder["ifg_dx"] = float(obj.dx)
+                holder["ifg_wvl"] = float(obj.wavelength)
             z = holder["z"]
             zfix = holder["pristine"]
-            if fmt == "ifg" and "ifg_dx" not in holder:
-                # the long-lived Interferogram keeps the calibration and wavelength it was built with
-                holder["ifg_dx"] = _dx_after(op["dx"], op.get("prep"))
-                holder["ifg_wvl"] = op["wvl"]
             dx_eff = holder["ifg_dx"] if fmt == "ifg" else op["dx"]
             wvl_eff = holder["ifg_wvl"] if fmt == "ifg" else op["wvl"]
             ev.update({"fmt": fmt, "path": path, "shape": list(zfix.shape)})
